@@ -321,6 +321,9 @@ func (c *checkSchema) collectAllowedJsonTypes(node ischema.Node, ss map[string]i
 
 	if typesConstraint == nil {
 		c.allowedJsonTypes[node.Type()] = struct{}{}
+		if node.Constraint(constraint.NullableConstraintType) != nil {
+			c.allowedJsonTypes[json.TypeNull] = struct{}{}
+		}
 		return
 	}
 
